@@ -244,11 +244,17 @@ theorem step_int (fuel : Nat) (v : Nat) (u rest : Bytes) (d U : Nat)
     have : ¬ p63 < d + v * U := by omega
     simp only [this, ↓reduceIte]
 
+/-- Up to 9 accepted digits (all that `Duration.String` ever writes) Go's iterated `scale *= 10` is exactly `10^k`. -/
+theorem scalePow_small : ∀ k, k ∈ [0,1,2,3,4,5,6,7,8,9] → scalePow k = F64.ofNat (10 ^ k) := by decide
+
+theorem scalePow_le9 (k : Nat) (h : k ≤ 9) : scalePow k = F64.ofNat (10 ^ k) := by
+  apply scalePow_small; simp; omega
+
 /-- one component with a fraction: `<digits>.<digits><unit>` adds `v * U` plus the float
 computation of the fraction (`add`) -/
 theorem step_frac (fuel : Nat) (v : Nat) (ds u rest : Bytes) (d U add : Nat)
     (hu : UnitChars u) (hne : u ≠ []) (hU : unitValue u = some U) (hr : NextOK rest)
-    (hds : Digs ds) (hsmall : dFrom 0 ds < 1000000000000000000) (hf : 0 < dFrom 0 ds)
+    (hds : Digs ds) (hsmall : dFrom 0 ds < 1000000000000000000) (hf : 0 < dFrom 0 ds) (hlen : ds.length ≤ 9)
     (hadd : (F64.toUInt64 (F64.mul (F64.ofNat (dFrom 0 ds)) (F64.div (F64.ofNat U) (F64.ofNat (10 ^ ds.length))))).toNat = add)
     (hv : v ≤ p63) (hvU : ¬ v > p63 / U) (hd : d + (v * U + add) ≤ p63) :
     parseLoopF (fuel + 1) (fmtNat v ++ 46 :: (ds ++ (u ++ rest))) d = parseLoopF fuel rest (d + (v * U + add)) := by
@@ -273,7 +279,7 @@ theorem step_frac (fuel : Nat) (v : Nat) (ds u rest : Bytes) (d U add : Nat)
   have hpre : ((c0 :: (tl ++ 46 :: (ds ++ (u ++ rest)))).length != (46 :: (ds ++ (u ++ rest))).length) = true := by
     simp; omega
   have hfpos : dFrom 0 ds > 0 := hf
-  simp only [hpre, hne, hU, hvU, hfpos, hadd, Bool.not_true, Bool.false_and, Bool.false_eq_true, ↓reduceIte]
+  simp only [hpre, hne, hU, hvU, hfpos, scalePow_le9 _ hlen, hadd, Bool.not_true, Bool.false_and, Bool.false_eq_true, ↓reduceIte]
   have hmod1 : (v * U + add) % two64 = v * U + add := Nat.mod_eq_of_lt (by simp only [p63, two64] at *; omega)
   have hmod : (d + (v * U + add)) % two64 = d + (v * U + add) := Nat.mod_eq_of_lt (by simp only [p63, two64] at *; omega)
   have h1 : ¬ v * U + add > p63 := by omega
@@ -546,7 +552,7 @@ theorem last_component (p U : Nat) (unit : Bytes) (hp9 : p ≤ 9)
       omega
     have hadd := hfa (dFrom 0 ds) ds.length hk1 hkp hfpos hflt
     rw [hval] at hadd
-    have := step_frac (fuel + 1) w ds unit [] d U (u0 % 10 ^ p) hu hne hUv hnil hds hsmall hfpos hadd hw hwU hd
+    have := step_frac (fuel + 1) w ds unit [] d U (u0 % 10 ^ p) hu hne hUv hnil hds hsmall hfpos (by omega) hadd hw hwU hd
     simp only [List.append_nil] at this
     simp only [List.cons_append]
     rw [this, loop_nil]
